@@ -75,18 +75,23 @@ def rule_D1(ctx) -> None:
     is_set = mod.func("Message.is_set")
     name_p = is_set.args.args[1].arg
     opt_sym = A(("sub", A(A(SELF, "_betterproto"), "meta_by_field_name"), N(name_p)), "optional")
+    raw_is_set = ("call", A(SELF, "__raw_get"), (N(name_p),), ())
     for opt in (False, True):
-        paths = Interp(mod, bindings={opt_sym: opt}).run(is_set)
-        ctx.count(len(paths))
         unset: Set[str] = set()
-        for p in paths:
-            v = p.value
-            if p.outcome != "return" or v is None:
-                continue
-            unset |= _unset_values(v)
-        if not unset:
-            ctx.inconclusive("D1", f"is_set[optional={opt}]", f"return expression not understood: {[show(p.value) for p in paths]}", mod.loc(is_set))
-            return
+        for cand, atoms in (("PLACEHOLDER", {("op", "is", raw_is_set, PLACEHOLDER): True, ("op", "is", raw_is_set, C(None)): False}),
+                            ("None", {("op", "is", raw_is_set, PLACEHOLDER): False, ("op", "is", raw_is_set, C(None)): True})):
+            paths = Interp(mod, bindings={opt_sym: opt}, assume=atoms).run(is_set)
+            ctx.count(len(paths))
+            vals = set()
+            for p in paths:
+                if p.outcome != "return" or p.value is None:
+                    continue
+                vals.add(_eval_under(p.value, atoms))
+            if vals == {False}:
+                unset.add(cand)
+            elif vals != {True}:
+                ctx.inconclusive("D1", f"is_set[optional={opt}]", f"return value for raw == {cand} not decided: {[show(p.value) for p in paths]}", mod.loc(is_set))
+                return
         readers[opt]["is_set"] = unset
     pi = mod.func("Message.__post_init__")
     for opt in (False, True):
@@ -121,6 +126,33 @@ def rule_D1(ctx) -> None:
                             "class M: a: Optional[int] = int32_field(1, group='g', optional=True); b likewise; m = M(a=1); m.b = 2; m.is_set('a')")
             else:
                 ctx.proved("D1", name, mod.loc(is_set), f"unset values {sorted(runset)} cover {sorted(set().union(*writers[opt].values()))}")
+
+
+def _eval_under(v: Sym, atoms: Dict[Sym, bool]):
+    """three-valued evaluation of a boolean term under fixed atoms (None = unknown)"""
+    if v in atoms:
+        return atoms[v]
+    if v[0] == "c":
+        return bool(v[1])
+    if v[0] == "op":
+        if v[1] == "not":
+            r = _eval_under(v[2], atoms)
+            return None if r is None else (not r)
+        if v[1] in ("and", "or"):
+            rs = [_eval_under(x, atoms) for x in v[2:]]
+            if v[1] == "and":
+                return False if False in rs else (None if None in rs else True)
+            return True if True in rs else (None if None in rs else False)
+        if v[1] == "is" and len(v) == 4 and v[3][0] == "ife":
+            # raw is (A if c else B)
+            c = _eval_under(v[3][1], atoms)
+            if c is not None:
+                return _eval_under(("op", "is", v[2], v[3][2] if c else v[3][3]), atoms)
+    if v[0] == "ife":
+        c = _eval_under(v[1], atoms)
+        if c is not None:
+            return _eval_under(v[2] if c else v[3], atoms)
+    return None
 
 
 def _unset_values(v: Sym) -> Set[str]:
